@@ -29,8 +29,11 @@ theorem roundtrip_struct_fuel (env : Env) (hE : envOK env) (name : Bytes) (v : V
     (hm : marshal env name v = .ok bz) (hlen : bz.length < 2 ^ 64)
     (k : Nat) (hk : sumFields env + 2 + budget env bz.length ≤ k) :
     unmarshalF k env name bz = some v := by
-  rcases wf_cases hwf with ⟨hpv, hprim⟩ | ⟨vs, rfl⟩
+  rcases wf_cases hwf with ⟨hpv, hprim⟩ | ⟨vs, rfl⟩ | ⟨es, rfl⟩
   · cases v <;> simp [isPrimVal] at hpv <;> simp [primOK] at hprim
+  rotate_left
+  · obtain ⟨_, _, htd, _⟩ := wf_list_inv hwf
+    cases htd
   obtain ⟨name', n, ifs, fs, rs, d', htd, hfind, rfl, hwfs⟩ := wf_struct_inv hwf
   cases htd
   have ha := aliasOf_struct hfind
